@@ -21,6 +21,6 @@ Your task: make a small, realistic change to the library source (under {wt}/king
 Deliver, in the directory {out}:
   1. patch.diff  — output of `git -C {wt} diff` (the change only; do not commit it).
   2. demo.py     — a small standalone program (uses only kingdon + stdlib/numpy/sympy) that demonstrates the violation: it must exit 0 and print PASS on the ORIGINAL code and exit 1 and print FAIL (with a short explanation) on the CHANGED code. It must import kingdon from whatever PYTHONPATH provides.
-  3. notes.md    — which clause of the property is broken, what exactly is needed for the bug to manifest (inputs/sequence), and the commands you ran with their outcome (test suite result on the changed code, demo on both versions — use `git -C {wt} stash` / `stash pop` to get the original).
+  3. notes.md    — which clause of the property is broken, what exactly is needed for the bug to manifest (inputs/sequence), and the commands you ran with their outcome (test suite result on the changed code, demo on both versions — to get the original, save your diff and run `git -C {wt} apply -R {out}/patch.diff`, then `git -C {wt} apply {out}/patch.diff` to restore it; do NOT use `git stash`: the stash is shared by all worktrees of the repository and other agents work concurrently).
 
 Rules: the change must keep the whole existing test suite green (run it yourself on the changed code and report the pass count). Do not edit tests. Do not add new dependencies. Keep the diff small (a few lines). When finished, leave the worktree with the change applied (uncommitted) and reply with a brief summary: what you changed, why tests don't notice, and what input exposes it.""")
